@@ -30,3 +30,18 @@ Theorem C05_bounded : forall k ops n stop, history_ok k ops = true ->
               (stop_ans stop).
 Proof. exact bounded. Qed.
 Print Assumptions C05_bounded.
+
+(* the regenerated tie: minimum() / maximum() of tree.go, translated from the Go AST on every run
+   (Gen/TreeGen.v), find the leaf Model.Tree.minleaf / maxleaf find: never nil, no panic, GFuel exactly when
+   the model's fuel runs out (hypotheses: the invariants xstep_sim runs under, see hyps_reachable) *)
+From GoArt Require Import Spec.TreeSpec Model.PoolTree Proofs.PoolTreeFacts Model.GoTree Gen.TreeGen Proofs.TranslateTreeFacts.
+Theorem C05_regenerated_minimum : forall fuel t d, xtwf t -> WF d (tabs t) ->
+  gres_map (option_map tabs) (g_minimum fuel (Some t)) =
+  match minleaf fuel (tabs t) with Some l => GRet (Some l) | None => GFuel end.
+Proof. exact gen_minimum_eq. Qed.
+Print Assumptions C05_regenerated_minimum.
+Theorem C05_regenerated_maximum : forall fuel t d, xtwf t -> WF d (tabs t) ->
+  gres_map (option_map tabs) (g_maximum fuel (Some t)) =
+  match maxleaf fuel (tabs t) with Some l => GRet (Some l) | None => GFuel end.
+Proof. exact gen_maximum_eq. Qed.
+Print Assumptions C05_regenerated_maximum.
